@@ -312,7 +312,7 @@ def main(chk: core.Check) -> int:
     chk.assumptions += ["awkward's own layout transformations (unflatten, slicing, zip) are third-party and only exercised; masked / union layouts are not generated",
                         "float results compared at 1e-9 relative to the track scale; branch-boundary inputs excluded as in C06"]
     hc.regen(chk)
-    chk.prove(modules=["C07", "Nested", "HelixTie", "HelixTie2"])
+    chk.prove(modules=["C07", "Nested", "HelixTie", "HelixTie2", "AwkTie"])
     try:
         diffs = layouts_vs_model(chk, 1500 if thorough else 250)
         chk.coverage["traces_validated_against_impl"] = chk.evals
